@@ -11,6 +11,7 @@ import (
 
 	"github.com/thushan/olla/internal/core/constants"
 	"github.com/thushan/olla/internal/util"
+	"github.com/thushan/olla/internal/verifhook"
 )
 
 // tracks state while streaming - buffers partial data, blocks in progress
@@ -112,6 +113,10 @@ func (t *Translator) transformStreamingSync(ctx context.Context, openaiStream io
 
 // process single sse line from openai, route to content or tool handlers
 func (t *Translator) processStreamLine(line string, state *StreamingState, w http.ResponseWriter, rc *http.ResponseController) error {
+	if verifhook.Enabled {
+		verifhook.Fault("translate.stream")
+	}
+
 	if !strings.HasPrefix(line, "data: ") {
 		return nil
 	}
